@@ -158,7 +158,12 @@ def gen_expr(rng, ids, depth=3, size=32):
         return ['O', '-', [gen_expr(rng, ids, depth - 1)]]
     if k < 0.65:
         op = rng.choice(['<<', '>>', 'a>>', '<<<', '>>>'])
-        return ['O', op, [gen_expr(rng, ids, depth - 1), r_int(rng.choice([0, 1, 4, 8, 16, 31, 32]))]]
+        # shifted operand anchored on an identifier (a constant one makes the
+        # simplifier build a gigantic integer: C05 termination, not our business)
+        inner = rng.choice(ids)
+        if rng.random() < 0.5:
+            inner = ['O', rng.choice(['+', '^', '|']), [inner, gen_expr(rng, ids, depth - 1)]]
+        return ['O', op, [inner, r_int(rng.choice([0, 1, 4, 8, 16, 31, 32]))]]
     if k < 0.75:
         # compose of a low part and a high part
         cut = rng.choice([8, 16])
